@@ -6,7 +6,7 @@ namespace Tbox.C14
 def firedCount (t : Nat) : List REv → Nat
   | [] => 0
   | .fired t' _ :: es => (if t' = t then 1 else 0) + firedCount t es
-  | .sent _ :: es => firedCount t es
+  | _ :: es => firedCount t es
 
 theorem firedCount_append (t : Nat) (a b : List REv) :
     firedCount t (a ++ b) = firedCount t a + firedCount t b := by
@@ -68,6 +68,267 @@ theorem pendingFind_mem (p : List (Nat × Cb)) (id : Int) (k : Nat) (cb : Cb)
   simp at h2
   exact ⟨h1, h2⟩
 
+/-! ### generic: properties of a library call that hold through every callback script -/
+
+/-- `R` is kept by everything a callback script can do, hence by completions at any nesting depth -/
+theorem runActs_rel (R : Rpc → Rpc → Prop) (hrefl : ∀ s, R s s) (htrans : ∀ a b c, R a b → R b c → R a c)
+    (allowed : Act → Prop)
+    (hact : ∀ (k : Rpc → Int → Int → Rpc × List REv), (∀ s id code, R s (k s id code).1) →
+      ∀ cur s a, allowed a → R s (doAct k cur s a).1)
+    (k : Rpc → Int → Int → Rpc × List REv) (hk : ∀ s id code, R s (k s id code).1) (cur : Int) :
+    ∀ (as : List Act), (∀ a ∈ as, allowed a) → ∀ s, R s (runActsWith k cur s as).1 := by
+  intro as
+  induction as with
+  | nil => intro _ s; exact hrefl s
+  | cons a as ih =>
+    intro hall s
+    simp only [runActsWith]
+    exact htrans _ _ _ (hact k hk cur s a (hall a (by simp))) (ih (fun b hb => hall b (by simp [hb])) _)
+
+/-- all acts of all scripts of the program satisfy `allowed` -/
+def ProgAll (allowed : Act → Prop) (p : Prog) : Prop :=
+  (∀ sc ∈ p.cbs, ∀ a ∈ sc, allowed a) ∧ (∀ h ∈ p.hs, ∀ a ∈ h.acts, allowed a)
+
+theorem getD_mem_or_nil {α} (l : List (List α)) (i : Nat) : l.getD i [] ∈ l ∨ l.getD i [] = [] := by
+  rw [List.getD_eq_getElem?_getD]
+  cases h : l[i]? with
+  | none => right; rfl
+  | some x => left; exact List.mem_of_getElem? h
+
+theorem script_allowed (allowed : Act → Prop) (p : Prog) (h : ProgAll allowed p) (i : Nat) :
+    ∀ a ∈ p.cbs.getD i [], allowed a := by
+  rcases getD_mem_or_nil p.cbs i with hm | hn
+  · exact h.1 _ hm
+  · rw [hn]; intro a ha; simp at ha
+
+/-- … for relations that imply "same program", under a condition on the program's acts -/
+theorem completeF_rel (R : Rpc → Rpc → Prop) (hrefl : ∀ s, R s s) (htrans : ∀ a b c, R a b → R b c → R a c)
+    (hprog : ∀ a b, R a b → b.prog = a.prog) (allowed : Act → Prop)
+    (hact : ∀ (k : Rpc → Int → Int → Rpc × List REv), (∀ s, ProgAll allowed s.prog → ∀ id code, R s (k s id code).1) →
+      ∀ cur s a, ProgAll allowed s.prog → allowed a → R s (doAct k cur s a).1)
+    (herase : ∀ s k, R s { s with pending := pendingErase s.pending k }) :
+    ∀ (fuel : Nat) (s : Rpc), ProgAll allowed s.prog → ∀ id code, R s (Rpc.completeF fuel s id code).1 := by
+  intro fuel
+  induction fuel with
+  | zero => intro s _ id code; exact hrefl s
+  | succ fuel ih =>
+    intro s hp id code
+    simp only [Rpc.completeF]
+    cases hf : pendingFind s.pending id with
+    | none => exact hrefl s
+    | some e =>
+      obtain ⟨k, cb⟩ := e
+      simp only
+      refine htrans _ _ _ (herase s k) ?_
+      -- run the script from the erased state, threading "same program"
+      have key : ∀ (as : List Act), (∀ a ∈ as, allowed a) → ∀ t : Rpc, ProgAll allowed t.prog →
+          R t (runActsWith (Rpc.completeF fuel) 0 t as).1 := by
+        intro as
+        induction as with
+        | nil => intro _ t _; exact hrefl t
+        | cons a as iha =>
+          intro hall t ht
+          simp only [runActsWith]
+          have h1 := hact (Rpc.completeF fuel) ih 0 t a ht (hall a (by simp))
+          have hp1 : ProgAll allowed (doAct (Rpc.completeF fuel) 0 t a).1.prog := by rw [hprog _ _ h1]; exact ht
+          exact htrans _ _ _ h1 (iha (fun b hb => hall b (by simp [hb])) _ hp1)
+      exact key _ (script_allowed allowed s.prog hp cb.script) _ hp
+
+/-- the same for a whole script run at top nesting level (service handlers) -/
+theorem runActs_rel' (R : Rpc → Rpc → Prop) (hrefl : ∀ s, R s s) (htrans : ∀ a b c, R a b → R b c → R a c)
+    (hprog : ∀ a b, R a b → b.prog = a.prog) (allowed : Act → Prop)
+    (hact : ∀ (k : Rpc → Int → Int → Rpc × List REv), (∀ s, ProgAll allowed s.prog → ∀ id code, R s (k s id code).1) →
+      ∀ cur s a, ProgAll allowed s.prog → allowed a → R s (doAct k cur s a).1)
+    (herase : ∀ s k, R s { s with pending := pendingErase s.pending k }) (cur : Int) :
+    ∀ (as : List Act), (∀ a ∈ as, allowed a) → ∀ t : Rpc, ProgAll allowed t.prog → R t (t.runActs cur as).1 := by
+  have ih := completeF_rel R hrefl htrans hprog allowed hact herase maxDepth
+  intro as
+  induction as with
+  | nil => intro _ t _; exact hrefl t
+  | cons a as iha =>
+    intro hall t ht
+    simp only [Rpc.runActs, runActsWith]
+    have h1 := hact (Rpc.completeF maxDepth) ih cur t a ht (hall a (by simp))
+    have hp1 : ProgAll allowed (doAct (Rpc.completeF maxDepth) cur t a).1.prog := by rw [hprog _ _ h1]; exact ht
+    exact htrans _ _ _ h1 (iha (fun b hb => hall b (by simp [hb])) _ hp1)
+
+/-! ### acts that do not touch the client half -/
+
+/-- `s'` differs from `s` at most in the server half / service table / dead flag -/
+def CFrame (s s' : Rpc) : Prop :=
+  s'.n = s.n ∧ s'.idAlloc = s.idAlloc ∧ s'.nTag = s.nTag ∧ s'.pending = s.pending ∧ s'.ring = s.ring ∧
+  s'.vn = s.vn ∧ s'.timerOn = s.timerOn ∧ s'.now = s.now ∧ s'.due = s.due ∧ s'.prog = s.prog
+
+theorem CFrame_refl (s : Rpc) : CFrame s s := ⟨rfl, rfl, rfl, rfl, rfl, rfl, rfl, rfl, rfl, rfl⟩
+
+theorem apiRespond_frame (s : Rpc) (id code : Int) : CFrame s (s.apiRespond id code).1 := by
+  unfold Rpc.apiRespond; split <;> exact CFrame_refl s
+
+/-- the standard instance of `completeF_rel`: a relation implied by `CFrame`, kept by `request`
+and by erasing a pending entry, over acts satisfying `allowed` (which excludes `cleanup`) -/
+theorem frame_doAct (R : Rpc → Rpc → Prop) (hframe : ∀ s s', CFrame s s' → R s s')
+    (hreq : ∀ s c m, R s (s.request c m).1) (allowed : Act → Prop) (hnc : ∀ a, allowed a → a ≠ .cleanup)
+    (k : Rpc → Int → Int → Rpc × List REv)
+    (hk : ∀ s, ProgAll allowed s.prog → ∀ id code, R s (k s id code).1)
+    (cur : Int) (s : Rpc) (a : Act) (hp : ProgAll allowed s.prog) (ha : allowed a) : R s (doAct k cur s a).1 := by
+  cases a with
+  | request cb m => exact hreq s cb m
+  | notify m => exact hframe _ _ (CFrame_refl s)
+  | respond id code => exact hframe _ _ (apiRespond_frame s id code)
+  | respondCur code => exact hframe _ _ (apiRespond_frame s cur code)
+  | inject rid code =>
+    simp only [doAct]
+    split
+    · exact hframe _ _ (CFrame_refl s)
+    · exact hk s hp _ _
+  | setService m h => exact hframe _ _ (CFrame_refl s)
+  | cleanup => exact absurd rfl (hnc _ ha)
+
+/-- a relation between the states before and after a library call that is kept by everything a
+cleanup-free callback script (satisfying `allowed`) can do -/
+structure Good (R : Rpc → Rpc → Prop) (allowed : Act → Prop) : Prop where
+  refl : ∀ s, R s s
+  trans : ∀ a b c, R a b → R b c → R a c
+  prog : ∀ a b, R a b → b.prog = a.prog
+  frame : ∀ s s', CFrame s s' → R s s'
+  req : ∀ s c m, R s (s.request c m).1
+  erase : ∀ s k, R s { s with pending := pendingErase s.pending k }
+  nc : ∀ a, allowed a → a ≠ .cleanup
+
+theorem Good.completeF {R : Rpc → Rpc → Prop} {allowed : Act → Prop} (g : Good R allowed) (fuel : Nat) (s : Rpc)
+    (hp : ProgAll allowed s.prog) (id code : Int) : R s (Rpc.completeF fuel s id code).1 :=
+  completeF_rel R g.refl g.trans g.prog allowed
+    (fun k hk cur s a hp ha => frame_doAct R g.frame g.req allowed g.nc k hk cur s a hp ha) g.erase fuel s hp id code
+
+theorem Good.complete {R : Rpc → Rpc → Prop} {allowed : Act → Prop} (g : Good R allowed) (s : Rpc)
+    (hp : ProgAll allowed s.prog) (id code : Int) : R s (s.complete id code).1 := g.completeF maxDepth s hp id code
+
+theorem Good.runActs {R : Rpc → Rpc → Prop} {allowed : Act → Prop} (g : Good R allowed) (cur : Int) (as : List Act)
+    (hall : ∀ a ∈ as, allowed a) (s : Rpc) (hp : ProgAll allowed s.prog) : R s (s.runActs cur as).1 :=
+  runActs_rel' R g.refl g.trans g.prog allowed
+    (fun k hk cur s a hp ha => frame_doAct R g.frame g.req allowed g.nc k hk cur s a hp ha) g.erase cur as hall s hp
+
+theorem Good.completeAll {R : Rpc → Rpc → Prop} {allowed : Act → Prop} (g : Good R allowed) (code : Int)
+    (ids : List Nat) : ∀ s : Rpc, ProgAll allowed s.prog → R s (s.completeAll code ids).1 := by
+  induction ids with
+  | nil => intro s _; exact g.refl s
+  | cons id ids ih =>
+    intro s hp
+    simp only [Rpc.completeAll]
+    have h1 := g.complete s hp id code
+    exact g.trans _ _ _ h1 (ih _ (by rw [g.prog _ _ h1]; exact hp))
+
+theorem Good.respond {R : Rpc → Rpc → Prop} {allowed : Act → Prop} (g : Good R allowed) (s : Rpc)
+    (hp : ProgAll allowed s.prog) (rid code : Int) : R s (s.respond rid code).1 := by
+  unfold Rpc.respond Rpc.respondG
+  split
+  · exact g.refl s
+  · exact g.complete s hp _ code
+
+theorem handler_mem (s : Rpc) (m h : Nat) (hd : Handler)
+    (hl : (s.services.getD m none).bind (fun h => (s.prog.hs[h]?).map (fun hd => (h, hd))) = some (h, hd)) :
+    hd ∈ s.prog.hs := by
+  generalize s.services.getD m none = o at hl
+  cases o with
+  | none => simp at hl
+  | some h' =>
+    simp only [Option.bind_some, Option.map_eq_some_iff] at hl
+    obtain ⟨a, ha, he⟩ := hl
+    simp only [Prod.mk.injEq] at he
+    rw [← he.2]; exact List.mem_of_getElem? ha
+
+theorem Good.onRequest {R : Rpc → Rpc → Prop} {allowed : Act → Prop} (g : Good R allowed) (s : Rpc)
+    (hp : ProgAll allowed s.prog) (id : Int) (m : Nat) : R s (s.onRequest id m).1 := by
+  unfold Rpc.onRequest
+  split
+  · exact g.refl s
+  · rename_i h hd hl
+    have hmem := handler_mem s m h hd hl
+    have hall : ∀ a ∈ hd.acts, allowed a := hp.2 hd hmem
+    split
+    · simp only
+      have h0 : R s ({ s with srv := s.srv.insert id } : Rpc) :=
+        g.frame _ _ ⟨rfl, rfl, rfl, rfl, rfl, rfl, rfl, rfl, rfl, rfl⟩
+      have h1 := g.runActs id hd.acts hall ({ s with srv := s.srv.insert id } : Rpc) hp
+      have h01 := g.trans _ _ _ h0 h1
+      split
+      · exact h01
+      · split
+        · exact g.trans _ _ _ h01 (g.frame _ _ (apiRespond_frame _ id _))
+        · exact g.trans _ _ _ h01 (g.frame _ _ ⟨rfl, rfl, rfl, rfl, rfl, rfl, rfl, rfl, rfl, rfl⟩)
+    · exact g.runActs 0 hd.acts hall s hp
+
+/-! ### the program never changes -/
+
+theorem request_prog (s : Rpc) (c m : Nat) : (s.request c m).1.prog = s.prog := by
+  unfold Rpc.request Rpc.monitorAdd; simp only; split <;> rfl
+
+theorem doAct_prog (k : Rpc → Int → Int → Rpc × List REv) (hk : ∀ s id code, (k s id code).1.prog = s.prog)
+    (cur : Int) (s : Rpc) (a : Act) : (doAct k cur s a).1.prog = s.prog := by
+  cases a with
+  | request cb m => exact request_prog s cb m
+  | notify m => rfl
+  | respond id code => simp only [doAct, Rpc.apiRespond]; split <;> rfl
+  | respondCur code => simp only [doAct, Rpc.apiRespond]; split <;> rfl
+  | inject rid code => simp only [doAct]; split; rfl; exact hk _ _ _
+  | setService m h => rfl
+  | cleanup => rfl
+
+theorem completeF_prog (fuel : Nat) (s : Rpc) (id code : Int) : (Rpc.completeF fuel s id code).1.prog = s.prog :=
+  completeF_rel (fun a b => b.prog = a.prog) (fun _ => rfl) (fun _ _ _ h1 h2 => h2.trans h1) (fun _ _ h => h)
+    (fun _ => True) (fun k hk cur s a _ _ => doAct_prog k (fun t id code => hk t ⟨fun _ _ _ _ => trivial, fun _ _ _ _ => trivial⟩ id code) cur s a)
+    (fun _ _ => rfl) fuel s ⟨fun _ _ _ _ => trivial, fun _ _ _ _ => trivial⟩ id code
+
+theorem runActs_prog (cur : Int) (s : Rpc) (as : List Act) : (s.runActs cur as).1.prog = s.prog := by
+  unfold Rpc.runActs
+  exact runActs_rel (fun a b => b.prog = a.prog) (fun _ => rfl) (fun _ _ _ h1 h2 => h2.trans h1) (fun _ => True)
+    (fun k hk cur s a _ => doAct_prog k hk cur s a) _ (completeF_prog maxDepth) cur as (fun _ _ => trivial) s
+
+theorem complete_prog (s : Rpc) (id code : Int) : (s.complete id code).1.prog = s.prog := completeF_prog _ s id code
+
+theorem completeAll_prog (code : Int) (ids : List Nat) : ∀ s : Rpc, (s.completeAll code ids).1.prog = s.prog := by
+  induction ids with
+  | nil => intro s; rfl
+  | cons id ids ih => intro s; simp only [Rpc.completeAll]; rw [ih, complete_prog]
+
+theorem tick_prog (s : Rpc) : s.tick.1.prog = s.prog := by
+  unfold Rpc.tick
+  split
+  · rfl
+  · split
+    · rfl
+    · rw [completeAll_prog]
+
+theorem onRequest_prog (s : Rpc) (id : Int) (m : Nat) : (s.onRequest id m).1.prog = s.prog := by
+  unfold Rpc.onRequest
+  split
+  · rfl
+  · split
+    · simp only
+      split
+      · rw [runActs_prog]
+      · split
+        · simp only [Rpc.apiRespond]; split <;> simp [runActs_prog]
+        · simp [runActs_prog]
+    · simp [runActs_prog]
+
+theorem step_prog (s : Rpc) (op : Op) : (step s op).1.prog = s.prog := by
+  cases op with
+  | request c m => exact request_prog s c m
+  | notify m => rfl
+  | response id code => simp only [step, Rpc.respond, Rpc.respondG]; split; rfl; exact complete_prog _ _ _
+  | tick => exact tick_prog s
+  | apiRespond id code => simp only [step, Rpc.apiRespond]; split <;> rfl
+  | inRequest id m => exact onRequest_prog s id m
+  | stick => rfl
+  | setService m h => rfl
+  | cleanup => rfl
+
+theorem run_prog (ops : List Op) : ∀ s : Rpc, (run s ops).1.prog = s.prog := by
+  induction ops with
+  | nil => intro s; rfl
+  | cons op ops ih => intro s; simp only [run]; rw [ih, step_prog]
+
 /-- the per-step accounting: a callback that runs leaves the pending map; new tags are fresh -/
 def Delta (s s' : Rpc) (evs : List REv) : Prop :=
   s.nTag ≤ s'.nTag ∧
@@ -85,16 +346,22 @@ theorem Delta_trans (s s1 s2 : Rpc) (e1 e2 : List REv) (h1 : Delta s s1 e1) (h2 
   rw [firedCount_append]
   split at a <;> split at b <;> split <;> omega
 
+/-- a call that leaves the pending map and the tag counter alone and runs no completion callback -/
+theorem Delta_quiet (s s' : Rpc) (evs : List REv) (hp : ∀ t, pendCount t s'.pending ≤ pendCount t s.pending) (hn : s'.nTag = s.nTag)
+    (hf : ∀ t, firedCount t evs = 0) : Delta s s' evs := by
+  refine ⟨by omega, ?_⟩
+  intro t; rw [hf t]; have := hp t; split <;> omega
+
 theorem monitorAdd_pending (s : Rpc) (id : Nat) :
     (s.monitorAdd id).pending = s.pending ∧ (s.monitorAdd id).nTag = s.nTag := by
   unfold Rpc.monitorAdd; simp only; split <;> simp
 
-theorem Delta_request (s : Rpc) (chain : Bool) : Delta s (s.request chain).1 (s.request chain).2 := by
+theorem Delta_request (s : Rpc) (c m : Nat) : Delta s (s.request c m).1 (s.request c m).2 := by
   unfold Rpc.request
   simp only
   obtain ⟨hp, hn⟩ := monitorAdd_pending
     { s with idAlloc := s.idAlloc + 1, nTag := s.nTag + 1,
-             pending := pendingErase s.pending (s.idAlloc + 1) ++ [(s.idAlloc + 1, { tag := s.nTag, chain := chain })] }
+             pending := pendingErase s.pending (s.idAlloc + 1) ++ [(s.idAlloc + 1, { tag := s.nTag, script := c })] }
     (s.idAlloc + 1)
   refine ⟨by rw [hn]; simp, ?_⟩
   intro t
@@ -104,49 +371,69 @@ theorem Delta_request (s : Rpc) (chain : Bool) : Delta s (s.request chain).1 (s.
   simp only [pendCount]
   split <;> split <;> omega
 
-theorem Delta_complete (s : Rpc) (id code : Int) : Delta s (s.complete id code).1 (s.complete id code).2 := by
-  unfold Rpc.complete
-  cases hf : pendingFind s.pending id with
-  | none => simp only; exact Delta_refl s
-  | some e =>
-    obtain ⟨k, cb⟩ := e
-    simp only
-    have hmem := (pendingFind_mem _ _ _ _ hf).1
-    unfold Rpc.fire
-    by_cases hc : cb.chain = true
-    · simp only [hc, if_true]
-      have hr := Delta_request s false
+theorem Delta_doAct (k : Rpc → Int → Int → Rpc × List REv)
+    (hk : ∀ s id code, Delta s (k s id code).1 (k s id code).2) (cur : Int) (s : Rpc) (a : Act) :
+    Delta s (doAct k cur s a).1 (doAct k cur s a).2 := by
+  cases a with
+  | request cb m => exact Delta_request s cb m
+  | notify m => exact Delta_quiet _ _ _ (fun _ => Nat.le_refl _) rfl (fun t => by first | rfl | simp [firedCount])
+  | respond id code =>
+    simp only [doAct, Rpc.apiRespond]
+    split
+    · exact Delta_refl s
+    · exact Delta_quiet _ _ _ (fun _ => Nat.le_refl _) rfl (fun t => by first | rfl | simp [firedCount])
+  | respondCur code =>
+    simp only [doAct, Rpc.apiRespond]
+    split
+    · exact Delta_refl s
+    · exact Delta_quiet _ _ _ (fun _ => Nat.le_refl _) rfl (fun t => by first | rfl | simp [firedCount])
+  | inject rid code =>
+    simp only [doAct]
+    split
+    · exact Delta_refl s
+    · exact hk _ _ _
+  | setService m h => exact Delta_quiet _ _ _ (fun _ => Nat.le_refl _) rfl (fun t => by first | rfl | simp [firedCount])
+  | cleanup => exact Delta_quiet _ _ _ (fun t => by first | exact Nat.zero_le _ | simp [Rpc.cleanup, pendCount]) rfl (fun t => by first | rfl | simp [firedCount])
+
+theorem Delta_runActsWith (k : Rpc → Int → Int → Rpc × List REv)
+    (hk : ∀ s id code, Delta s (k s id code).1 (k s id code).2) (cur : Int) (as : List Act) :
+    ∀ s, Delta s (runActsWith k cur s as).1 (runActsWith k cur s as).2 := by
+  induction as with
+  | nil => intro s; exact Delta_refl s
+  | cons a as ih =>
+    intro s
+    simp only [runActsWith]
+    exact Delta_trans _ _ _ _ _ (Delta_doAct k hk cur s a) (ih _)
+
+theorem Delta_completeF (fuel : Nat) : ∀ (s : Rpc) (id code : Int),
+    Delta s (Rpc.completeF fuel s id code).1 (Rpc.completeF fuel s id code).2 := by
+  induction fuel with
+  | zero =>
+    intro s id code
+    exact Delta_quiet _ _ _ (fun _ => Nat.le_refl _) rfl (fun t => by first | rfl | simp [Rpc.completeF, firedCount])
+  | succ fuel ih =>
+    intro s id code
+    simp only [Rpc.completeF]
+    cases hf : pendingFind s.pending id with
+    | none => exact Delta_refl s
+    | some e =>
+      obtain ⟨k, cb⟩ := e
+      simp only
+      have hmem := (pendingFind_mem _ _ _ _ hf).1
+      have hr := Delta_runActsWith (Rpc.completeF fuel) ih 0 (s.prog.cbs.getD cb.script [])
+        { s with pending := pendingErase s.pending k }
       refine ⟨hr.1, ?_⟩
       intro t
-      unfold Rpc.request
-      simp only
-      obtain ⟨hp, hn⟩ := monitorAdd_pending
-        { s with idAlloc := s.idAlloc + 1, nTag := s.nTag + 1,
-                 pending := pendingErase s.pending (s.idAlloc + 1) ++ [(s.idAlloc + 1, { tag := s.nTag, chain := false })] }
-        (s.idAlloc + 1)
-      rw [hp, hn]
-      simp only
-      have e1 : pendingErase (pendingErase s.pending (s.idAlloc + 1) ++ [(s.idAlloc + 1, ({ tag := s.nTag, chain := false } : Cb))]) k
-          = pendingErase (pendingErase s.pending k) (s.idAlloc + 1) ++
-            pendingErase [(s.idAlloc + 1, ({ tag := s.nTag, chain := false } : Cb))] k := by
-        rw [← pendingErase_comm]; simp [pendingErase]
-      rw [e1, pendCount_append]
-      have a1 := pendCount_erase_le t (s.idAlloc + 1) (pendingErase s.pending k)
+      have a1 := hr.2 t
       have a2 := pendCount_erase_mem t k cb s.pending hmem
-      have a3 := pendCount_erase_le t k [(s.idAlloc + 1, ({ tag := s.nTag, chain := false } : Cb))]
-      have a4 : pendCount t [(s.idAlloc + 1, ({ tag := s.nTag, chain := false } : Cb))] = if s.nTag = t then 1 else 0 := by
-        simp [pendCount]
-      have a5 : firedCount t [REv.sent (s.idAlloc + 1)] = 0 := rfl
-      simp only [firedCount, a5]
-      rw [a4] at a3
-      by_cases h1 : cb.tag = t <;> by_cases h2 : s.nTag = t <;>
-        simp only [h1, h2, if_true, if_false] at a2 a3 ⊢ <;> split <;> omega
-    · simp only [hc, if_false, Bool.false_eq_true]
-      refine ⟨Nat.le_refl _, ?_⟩
-      intro t
-      have a2 := pendCount_erase_mem t k cb s.pending hmem
-      simp only [firedCount]
-      split at a2 <;> split <;> simp <;> omega
+      simp only [firedCount] at a1 ⊢
+      split at a1 <;> split at a2 <;> split <;> omega
+
+theorem Delta_complete (s : Rpc) (id code : Int) : Delta s (s.complete id code).1 (s.complete id code).2 :=
+  Delta_completeF maxDepth s id code
+
+theorem Delta_runActs (cur : Int) (s : Rpc) (as : List Act) : Delta s (s.runActs cur as).1 (s.runActs cur as).2 :=
+  Delta_runActsWith _ (Delta_completeF maxDepth) cur as s
 
 theorem Delta_completeAll (code : Int) (ids : List Nat) :
     ∀ s : Rpc, Delta s (s.completeAll code ids).1 (s.completeAll code ids).2 := by
@@ -169,16 +456,65 @@ theorem Delta_tick (s : Rpc) : Delta s s.tick.1 s.tick.2 := by
                  timerOn := if s.vn - items.length = 0 then false else s.timerOn }
       exact this
 
+theorem Delta_cons_quiet (s s' : Rpc) (e : REv) (evs : List REv) (he : ∀ t, firedCount t [e] = 0)
+    (h : Delta s s' evs) : Delta s s' (e :: evs) := by
+  refine ⟨h.1, ?_⟩
+  intro t
+  have := h.2 t
+  have he' := he t
+  have : firedCount t (e :: evs) = firedCount t evs := by
+    have := firedCount_append t [e] evs
+    simp only [List.singleton_append] at this
+    omega
+  omega
+
+theorem Delta_onRequest (s : Rpc) (id : Int) (m : Nat) : Delta s (s.onRequest id m).1 (s.onRequest id m).2 := by
+  unfold Rpc.onRequest
+  split
+  · exact Delta_quiet _ _ _ (fun _ => Nat.le_refl _) rfl (fun t => by first | rfl | simp [firedCount])
+  · rename_i h hd _
+    split
+    · simp only
+      have hr := Delta_runActs id { s with srv := s.srv.insert id } hd.acts
+      have hbase : Delta s (({ s with srv := s.srv.insert id } : Rpc).runActs id hd.acts).1
+          (({ s with srv := s.srv.insert id } : Rpc).runActs id hd.acts).2 := hr
+      split
+      · exact Delta_cons_quiet _ _ _ _ (fun t => by first | rfl | simp [firedCount]) hbase
+      · split
+        · simp only [Rpc.apiRespond]
+          split
+          · simp only [List.append_nil]
+            exact Delta_cons_quiet _ _ _ _ (fun t => by first | rfl | simp [firedCount]) hbase
+          · refine Delta_cons_quiet _ _ _ _ (fun t => by first | rfl | simp [firedCount]) ?_
+            exact Delta_trans _ _ _ _ _ hbase
+              (Delta_quiet _ _ _ (fun _ => Nat.le_refl _) rfl (fun t => by first | rfl | simp [firedCount]))
+        · refine Delta_cons_quiet _ _ _ _ (fun t => by first | rfl | simp [firedCount]) ?_
+          have := Delta_trans _ _ _ _ [] hbase
+            (Delta_quiet _ ({ (({ s with srv := s.srv.insert id } : Rpc).runActs id hd.acts).1 with
+              srv := (({ s with srv := s.srv.insert id } : Rpc).runActs id hd.acts).1.srv.monitorAdd id }) []
+              (fun _ => Nat.le_refl _) rfl (fun t => by first | rfl | simp [firedCount]))
+          simpa using this
+    · exact Delta_cons_quiet _ _ _ _ (fun t => by first | rfl | simp [firedCount]) (Delta_runActs 0 s hd.acts)
+
 theorem Delta_step (s : Rpc) (op : Op) : Delta s (step s op).1 (step s op).2 := by
   cases op with
-  | request c => exact Delta_request s c
-  | notify => refine ⟨Nat.le_refl _, ?_⟩; intro t; simp [step, firedCount]
+  | request c m => exact Delta_request s c m
+  | notify m => exact Delta_quiet _ _ _ (fun _ => Nat.le_refl _) rfl (fun t => by first | rfl | simp [firedCount])
   | response id code =>
     simp only [step, Rpc.respond, Rpc.respondG]
     split
     · exact Delta_refl s
     · exact Delta_complete s _ code
   | tick => exact Delta_tick s
+  | apiRespond id code =>
+    simp only [step, Rpc.apiRespond]
+    split
+    · exact Delta_refl s
+    · exact Delta_quiet _ _ _ (fun _ => Nat.le_refl _) rfl (fun t => by first | rfl | simp [firedCount])
+  | inRequest id m => exact Delta_onRequest s id m
+  | stick => exact Delta_quiet _ _ _ (fun _ => Nat.le_refl _) rfl (fun t => by first | rfl | simp [firedCount])
+  | setService m h => exact Delta_quiet _ _ _ (fun _ => Nat.le_refl _) rfl (fun t => by first | rfl | simp [firedCount])
+  | cleanup => exact Delta_quiet _ _ _ (fun t => by first | exact Nat.zero_le _ | simp [Rpc.cleanup, pendCount]) rfl (fun t => by first | rfl | simp [firedCount])
 
 theorem Delta_run (ops : List Op) : ∀ s : Rpc, Delta s (run s ops).1 (run s ops).2 := by
   induction ops with
